@@ -264,7 +264,7 @@ def covers (r : Nat × Nat) (a : Nat) : Bool := r.1 ≤ a && a < r.1 + r.2
 def inlineAt (body : List Rec) (depth a : Nat) : Option (Nat × Nat × Nat) :=
   body.findSome? fun r => match r with
     | .inline d callLine callFile origin r0 ranges =>
-      if d = depth ∧ (r0 :: ranges).any (covers · a) then some (callLine, callFile, origin) else none
+      if decide (d = depth) && (r0 :: ranges).any (covers · a) then some (callLine, callFile, origin) else none
     | _ => none
 
 /-- the line record covering `a` -/
@@ -310,6 +310,38 @@ def nextStep (x : Nat) (best : Option Nat) (s : RSym) : Option Nat :=
 
 /-- the least symbol address above `x` -/
 def nextAddr (syms : List RSym) (x : Nat) : Option Nat := syms.foldl (nextStep x) none
+
+def linesOf : List Rec → List SourceLine
+  | [] => []
+  | .line addr size ln fl :: rest => ⟨addr, size, fl, ln⟩ :: linesOf rest
+  | _ :: rest => linesOf rest
+
+def inlineesOf : List Rec → List Inlinee
+  | [] => []
+  | .inline depth callLine callFile org r0 ranges :: rest =>
+    (r0 :: ranges).map (fun p => ⟨depth, p.1, p.2, callFile, callLine, org⟩) ++ inlineesOf rest
+  | _ :: rest => inlineesOf rest
+
+/-- the inline ranges of one FUNC block: non-empty, ending below 2^32, and two ranges of the same depth
+do not overlap -/
+structure InlOK (L : List Inlinee) : Prop where
+  pos : ∀ i ∈ L, 0 < i.size ∧ i.address + i.size < pow32
+  disj : L.Pairwise (fun i j => i.depth = j.depth →
+    i.address + i.size ≤ j.address ∨ j.address + j.size ≤ i.address)
+
+/-- the line records of one FUNC block: ascending, each starting where the previous one ends, the last
+one reaching the end of the function (no gaps — cf. the known finding C10-line-gap) -/
+def LinesOK : List SourceLine → Nat → Prop
+  | [], _ => True
+  | [l], fend => fend ≤ l.address + l.size
+  | l1 :: l2 :: rest, fend =>
+    l1.address < l2.address ∧ l1.address + l1.size = l2.address ∧ LinesOK (l2 :: rest) fend
+
+/-- well-formed file: `WFIndex` plus well-formed FUNC blocks -/
+structure WF (s : SymFile) : Prop where
+  index : WFIndex s
+  bodies : ∀ r ∈ readSyms s.lines, ∀ size, r.size = some size →
+    InlOK (inlineesOf r.body) ∧ LinesOK (linesOf r.body) (r.addr + size)
 
 def readDirectly (s : SymFile) (a : Nat) : Look :=
   let syms := readSyms s.lines
